@@ -201,9 +201,21 @@ def _judge(chk, rule, where, what, verdict, found):
 def r2_precision(ctx, chk, rule="C14.2"):
     tc = C04.threshold_chain(ctx)
     roles = K.role_classes(ctx)
-    f = ctx.prog.resolve_method(roles["min"], "value_iteration_rewards")
+    f0 = ctx.prog.resolve_method(roles["min"], "value_iteration_rewards")
+    # the step itself and the helpers of the Player-2 class that it runs (a template method in the base class, `_bellman_rewards`)
+    fs, todo = [], [f0]
+    while todo:
+        g_ = todo.pop()
+        if g_ in fs:
+            continue
+        fs.append(g_)
+        for c_ in walk_no_nested_defs(g_.node):
+            if isinstance(c_, ast.Call) and isinstance(c_.func, ast.Attribute) and isinstance(c_.func.value, ast.Name) and c_.func.value.id == "self":
+                h_ = ctx.prog.resolve_method(roles["min"], c_.func.attr)
+                if h_ is not None and h_.name not in ("get_worst_strategies_reachability",) and len(fs) < 8:
+                    todo.append(h_)
     n = 0
-    for c in walk_no_nested_defs(f.node):
+    for f, c in [(g_, c_) for g_ in fs for c_ in walk_no_nested_defs(g_.node)]:
         if isinstance(c, ast.Call) and isinstance(c.func, ast.Attribute) and c.func.attr == "get_worst_strategies_reachability":
             n += 1
             callee = ctx.cg.resolve(c, f)
@@ -231,7 +243,7 @@ def r2_precision(ctx, chk, rule="C14.2"):
             else:
                 chk.undecided(rule, f.where(c), "digits argument `%s` is not a constant" % (src(darg) if darg is not None else None))
     if n == 0:
-        chk.undecided(rule, f.where(), "no call of get_worst_strategies_reachability in Player 2's reward step")
+        chk.undecided(rule, f0.where(), "no call of get_worst_strategies_reachability in Player 2's reward step")
 
 
 def r3_seeding(ctx, chk, rule="C14.3"):
